@@ -358,11 +358,16 @@ def apply_repo(w, e, fi, clsbind, args, kwargs, s, closure=None):
                 conds = conds | p.value.conds
                 if s.holds(("ok", callterm)):
                     continue
-            if any(s.contradicts(subst(c, pmap)) for c in conds):
+            sconds = [subst(c, pmap) for c in conds]
+            if any(s.contradicts(c) for c in sconds):
                 continue
             s1 = s.copy()
             for c in sm.path_facts[id(p)]:
                 s1.add(subst(c, pmap))
+            # the path's own facts together with what the caller knows (e.g. a membership the callee
+            # tested, instantiating a forall fact of the caller) may refute one of its conditions
+            if any(s1.contradicts(c) for c in sconds):
+                continue
             s1.ev("inlined", site, callee, subst(p.events, pmap))
             if p.kind == "raise":
                 x = p.value
@@ -442,8 +447,10 @@ def _is_callable_term(t):
         return False
     if len(t) == 2 and t[0] == "global" and t[1].startswith(("func:", "class:")):
         return True
-    if t[0] == "closure" or (t[0] == "gen" and len(t) == 3):
+    if t[0] == "closure" or (t[0] in ("gen", "nt") and len(t) == 3) or t[0] == "excobj":
         return True
+    if len(t) == 2 and t[0] == "global" and t[1].startswith("const:"):
+        return True  # a module constant (a record, a table, a compiled pattern): specialise on it
     if t[0] == "partial" and len(t) == 4:
         return _is_callable_term(t[1]) or (isinstance(t[1], tuple) and t[1] and t[1][0] == "global")
     return False
